@@ -12,7 +12,7 @@ GEN_MODULES = ()
 MIN_THEOREMS = 11
 US = D.US
 YMAX = Z.YMAX_QUICK
-ENTRIES = ("datetime", "tzconvert", "tzdatetime", "set", "on", "at", "replace", "parse", "local", "instance", "naivefn")
+ENTRIES = ("datetime", "tzconvert", "tzconvert_pdt", "tzdatetime", "set", "on", "at", "replace", "replace_fold", "parse", "local", "instance", "naivefn")
 RULE = ("every gap and overlap of every zone enumerated from the tzdata tables (quick: up to 24 per zone to year 2100, "
         "always including Lord_Howe 30-min, Kiritimati/Apia whole-day skips, LMT second-granularity changes; thorough: all) "
         "x wall positions {lo-1us, lo, mid, hi-1us, hi} x fold x raise x entry points " + ",".join(ENTRIES) +
@@ -46,7 +46,7 @@ def _probe(rng, name, zi, irr):
                         continue
                     if e in ("tzdatetime", "local", "parse", "naivefn") and (rz or not fold):
                         continue      # these entry points have no fold/raise argument
-                    if e in ("set", "on", "at", "replace", "instance") and rz:
+                    if e in ("set", "on", "at", "replace", "replace_fold", "instance") and rz:
                         continue
                     yield ("create", e, str(zi), w, fold, rz)
 
@@ -72,7 +72,7 @@ def gen_ops(rng, tier):
         zi = rng.randrange(len(D.ZN))
         w = rng.randint(D.MIN_US + 3 * 86400 * US, Z.limit_us(YMAX))
         zr = rng.choice((str(zi), str(zi), "f%d" % (rng.randint(-86399, 86399) * US), "n", "f0"))
-        e = rng.choice(("datetime", "set", "replace", "tzconvert") if zr != "n" else ("naivefn",))
+        e = rng.choice(("datetime", "set", "replace", "replace_fold", "tzconvert", "tzconvert_pdt") if zr != "n" else ("naivefn",))
         fold = rng.randint(0, 1)
         yield ("create", e, zr, w, fold if e != "naivefn" else 1, 0)
 
@@ -87,7 +87,7 @@ def _mfold(op):
 def line(op, backend):
     _, e, zr, w, fold, rz = op
     f, r = _mfold(op)
-    return "create %s %d %d %d" % (zr, w, f, r)
+    return "%s %s %d %d %d" % ("createp" if e == "tzconvert_pdt" else "create", zr, w, f, r)
 
 
 _P = {}
@@ -123,6 +123,9 @@ def impl(op, backend):
             r = p.datetime(*f, tz=tz, fold=fold, raise_on_unknown_times=bool(rz))
         elif e == "tzconvert":
             r = tz.convert(dt.datetime(*f, fold=fold), raise_on_unknown_times=bool(rz))
+        elif e == "tzconvert_pdt":
+            # the naive value handed to convert() is itself a pendulum DateTime (its replace() is the overridden one)
+            r = tz.convert(p.DateTime(*f, fold=fold), raise_on_unknown_times=bool(rz))
         elif e == "tzdatetime":
             r = tz.datetime(*f)
         elif e == "naivefn":
@@ -138,6 +141,12 @@ def impl(op, backend):
             r = p.parse(s, tz=tz)
         elif e == "instance":
             r = p.instance(dt.datetime(*f, fold=fold), tz=tz)
+        elif e == "replace_fold":
+            # explicit fold= argument that differs from the instance's own fold
+            base, _ = _regular_base(zr, w, 1 - fold)
+            if base is None:
+                return "skip"
+            r = base.replace(year=f[0], month=f[1], day=f[2], hour=f[3], minute=f[4], second=f[5], microsecond=f[6], fold=fold)
         elif e in ("set", "replace"):
             base, _ = _regular_base(zr, w, fold)
             if base is None:
@@ -171,7 +180,7 @@ def impl(op, backend):
         return "err NonExistingTime"
     except _P["A"]:
         return "err AmbiguousTime"
-    if zr != "n" and e not in ("tzconvert", "tzdatetime"):
+    if zr != "n" and e not in ("tzconvert", "tzconvert_pdt", "tzdatetime"):
         if r.tzinfo is not tz or type(r) is not p.DateTime:
             return "err WrongZoneOrType"
     return D.outv(r)
